@@ -494,6 +494,14 @@ Next ==
 
 Spec == Init /\ [][Next]_vars /\ WF_vars(Progress)
 
+\* Fairness per component (every actor, every pending sender, every caller keeps being scheduled
+\* - the tokio scheduler is fair); timers, cancellations and clients' new requests are not forced.
+LiveSpec ==
+    /\ Init /\ [][Next]_vars
+    /\ WF_vars(TopicTurn) /\ WF_vars(TopicPublishDone) /\ WF_vars(SenderPush)
+    /\ \A s \in Subs : WF_vars(SubTurn(s)) /\ WF_vars(SubDeleteResume(s)) /\ WF_vars(SubExit(s))
+    /\ \A p \in Procs : WF_vars(ProcStep(p))
+
 (***************************************************************************)
 (* Properties.                                                             *)
 (***************************************************************************)
@@ -507,6 +515,19 @@ Parked(p) == IsConsumer(p) /\ pc[p] = "await" /\ sig[p] = "waiting"
 \* invariant also catches hangs that expiry or cancellation steps would mask.)
 C07_NoHang ==
     Stable => \A p \in Procs : ~IsConsumer(p) => (Finished(p) \/ pc[p] = "start")
+
+\* C07 as a liveness property (under LiveSpec): every request that was sent is eventually answered
+\* or withdrawn - also excludes livelocks, which the stable-state invariant cannot see.
+C07_Answered == \A p \in Procs : (~IsConsumer(p) /\ pc[p] = "wait") ~> (pc[p] # "wait")
+
+\* C06 as a liveness property: a consumer is not left parked for ever next to a non-empty backlog.
+C06_Woken ==
+    \A p \in Procs : (Parked(p) /\ backlog[Target[p]] > 0 /\ ~deleted[Target[p]])
+                         ~> ~(Parked(p) /\ backlog[Target[p]] > 0 /\ ~deleted[Target[p]])
+
+\* C12 as a liveness property: consumers of a deleted subscription are eventually released.
+C12_EventuallyReleased ==
+    \A p \in Procs : (IsConsumer(p) /\ pc[p] # "start" /\ delsig[Target[p]]) ~> Finished(p)
 
 C07_ActorsIdle ==
     Stable => (tbusy = "idle" /\ \A s \in Subs : sbusy[s] = "idle")
